@@ -18,6 +18,7 @@ import (
 	"flag"
 	"fmt"
 	"os"
+	"reflect"
 	"sync"
 	"sync/atomic"
 	"time"
@@ -248,6 +249,26 @@ func stressQueries(rounds, workers int, seed uint64) []string {
 			cp.SetMutex()
 		}
 		wantEq := s.IsEqual(cp) == nil
+		// values of Go types that no query has looked at before (struct types
+		// made at run time), first met by queries running concurrently: there
+		// is no warm-up pass over these two stacks
+		fresh, fresh2 := stk.And(), stk.And()
+		inner, inner2 := stk.Or(), stk.Or()
+		for i := 0; i < 16; i++ {
+			st := reflect.StructOf([]reflect.StructField{{Name: fmt.Sprintf("F%d_%d", round, i), Type: reflect.TypeOf(0)}})
+			v1, v2 := reflect.New(st).Elem(), reflect.New(st).Elem()
+			v1.Field(0).SetInt(int64(i))
+			v2.Field(0).SetInt(int64(i))
+			if i%2 == 0 {
+				fresh.Push(v1.Interface())
+				fresh2.Push(v2.Interface())
+			} else {
+				inner.Push(v1.Addr().Interface())
+				inner2.Push(v2.Addr().Interface())
+			}
+		}
+		fresh.Push(inner, stk.Cond("k", stk.Eq, inner))
+		fresh2.Push(inner2, stk.Cond("k", stk.Eq, inner2))
 		var wg sync.WaitGroup
 		for w := 0; w < workers; w++ {
 			wg.Add(1)
@@ -270,6 +291,20 @@ func stressQueries(rounds, workers int, seed uint64) []string {
 					}
 					if (e == nil) != wantEq {
 						report(fmt.Sprintf("round %d: IsEqual verdict differs from the verdict in isolation", round))
+					}
+					if i == 0 {
+						_ = fresh.String()
+						_ = fresh.IsNesting()
+						_, _ = fresh.Unmarshal()
+						_, _ = fresh.Traverse(8, 0)
+						if w%2 == 0 {
+							e = fresh.IsEqual(fresh2)
+						} else {
+							e = fresh2.IsEqual(fresh)
+						}
+						if e != nil {
+							report(fmt.Sprintf("round %d: equal stacks of run-time struct values compared unequal under concurrency: %v", round, e))
+						}
 					}
 				}
 			}(w)
